@@ -34,6 +34,8 @@ class Ctx:
         ob.props = set(props) if props else set(self.c.props)
         ob.kind = kind or name.split('#')[0].split(':')[0].split('@')[0]
         ob.func = self.c.name
+        # refuting this obligation relies on a proof hint (a loop invariant abstracts the iterations before this point, or the clause IS such a hint)
+        ob.hinted = bool(getattr(st, 'hinted', False)) or ob.kind.startswith('loop-inv') or ob.kind == 'decreases'
         self.obligations.append(ob)
 
     def raise_(self, st, exc, node=None, cond=None, why=None):
@@ -117,7 +119,34 @@ class Exec:
         if n in CLASSES or n in EXC_BASES: return VFunc('class', n)
         if n in lib.MODULES: return VMod(n)
         if n in lib.MODFUNCS: return VFunc('modfunc', n)
+        v = self.source_constant(e.id)
+        if v is not None: return v
         raise ToolLimit('unknown name %s (line %s)' % (e.id, getattr(e, 'lineno', '?')))
+
+    def source_constant(self, name):
+        '''a module-level constant of the file under contract that no specification declares (e.g. one a refactoring introduced): its value is read from
+        the source -- literals and containers of literals through lib.module_constants, NAME = re.compile(<literal>[, flags]) as a compiled pattern'''
+        if self.spec_mode or not self.ctx.c.file: return None
+        try:
+            py = lib.module_constants(self.ctx.c.file, names={name})
+        except (OSError, SyntaxError):
+            return None
+        if name in py:
+            try: return lib.const_value(py[name])
+            except (ToolLimit, TypeError, KeyError): return None
+        src_, tree = source_tree(self.ctx.c.file)
+        for n in tree.body:
+            if isinstance(n, ast.Assign) and len(n.targets) == 1 and isinstance(n.targets[0], ast.Name) and n.targets[0].id == name:
+                v = n.value
+                if (isinstance(v, ast.Call) and isinstance(v.func, ast.Attribute) and v.func.attr == 'compile' and isinstance(v.func.value, ast.Name) and v.func.value.id == 're'
+                        and v.args and isinstance(v.args[0], ast.Constant) and isinstance(v.args[0].value, (str, bytes)) and not v.keywords):
+                    flags = None
+                    if len(v.args) == 2:
+                        try: flags = self.ev(v.args[1], State())
+                        except ToolLimit: return None
+                    elif len(v.args) > 2: return None
+                    return lib.VPattern(const(v.args[0].value), flags)
+        return None
 
     def ev_Attribute(self, e, st):
         base = self.ev(e.value, st)
@@ -136,6 +165,11 @@ class Exec:
             if self.spec_mode: raise ToolLimit('spec reads attribute of None (line %s)' % getattr(e, 'lineno', '?'))
             self.ctx.raise_(st, 'AttributeError', e, None, 'None.%s' % e.attr)
             st.assume(z3.BoolVal(False)); return VAny(z3.Const('dead', AnySort))
+        if isinstance(base, VAny) and isinstance(e.value, ast.Attribute) and isinstance(e.value.value, ast.Name) and e.value.value.id == 'self' and e.attr in lib.MUTATORS \
+                and isinstance(st.env.get('self'), VRef) and (st.env['self'].cls, e.value.attr) in AUTO_CONTAINERS:
+            # a container attribute that no specification declares and that is initialised empty (a history / statistics list): what is put into it is not modelled;
+            # reading it gives an opaque value
+            return VFunc('noop', e.attr)
         if hasattr(base, 'attr') and not isinstance(base, VFunc): return base.attr(self, st, e, e.attr)
         if isinstance(base, VFunc) and base.kind == 'excinst':
             attrs = lib.EXC_ATTRS.get(base.name)
@@ -162,6 +196,9 @@ class Exec:
             if prop and CONTRACTS[prop].is_property:
                 return self.apply_contract(CONTRACTS[prop], [base], {}, st, e)
             if prop: return VFunc('method', prop, base)
+            cv = self.source_class_constant(self.source_class(base, st), e.attr)
+            if cv is not None: return cv
+            if self.auto_field(base, e.attr, st): return heap_get(st, base, e.attr)
             raise ToolLimit('unknown attribute %s.%s (line %s)' % (base.cls, e.attr, getattr(e, 'lineno', '?')))
         if isinstance(base, (VStr, VList, VSet, VDict, VTuple, VInt, lib.VConst)):
             return VFunc('libmethod', e.attr, base)
@@ -178,7 +215,79 @@ class Exec:
             if m: return VFunc('func', m)
             for b in self.mro(base.name):
                 if b + '.' + e.attr in lib.MODULE_CONSTS: return lib.MODULE_CONSTS[b + '.' + e.attr]
+            if '.' in self.ctx.c.func and base.name == self.ctx.c.names.get(self.ctx.c.func.split('.')[0], self.ctx.c.func.split('.')[0]) and not self.spec_mode:
+                for n in source_tree(self.ctx.c.file)[1].body:
+                    if isinstance(n, ast.ClassDef) and n.name == self.ctx.c.func.split('.')[0]:
+                        cv = self.source_class_constant(n, e.attr)
+                        if cv is not None: return cv
         raise ToolLimit('attribute %s on %s (line %s)' % (e.attr, type(base).__name__, getattr(e, 'lineno', '?')))
+
+    def source_class(self, base, st):
+        '''the ClassDef of `self` of the function under contract (None for any other object)'''
+        me = st.env.get('self') if 'self' in st.env else self.ctx.entry.env.get('self') if getattr(self.ctx, 'entry', None) else None
+        if not isinstance(me, VRef) or not isinstance(base, VRef) or me.cls != base.cls or '.' not in self.ctx.c.func: return None
+        src_, tree = source_tree(self.ctx.c.file)
+        for n in tree.body:
+            if isinstance(n, ast.ClassDef) and n.name == self.ctx.c.func.split('.')[0]: return n
+        return None
+
+    def source_class_constant(self, cd, attr):
+        '''NAME = <literal> in the body of the class under contract, declared by no specification: the literal, read from the source (only when nothing in the
+        class ever assigns self.NAME, so the class attribute is what an instance sees)'''
+        if cd is None or self.spec_mode: return None
+        val = None
+        for n in cd.body:
+            if isinstance(n, ast.Assign) and len(n.targets) == 1 and isinstance(n.targets[0], ast.Name) and n.targets[0].id == attr: val = n.value
+        if val is None: return None
+        for n in ast.walk(cd):
+            if isinstance(n, ast.Attribute) and n.attr == attr and isinstance(n.ctx, (ast.Store, ast.Del)): return None
+        try: py = ast.literal_eval(val)
+        except (ValueError, SyntaxError): return None
+        if isinstance(py, tuple) and all(isinstance(x, (int, str, bytes, bool)) or x is None for x in py): return VTuple([const(x) for x in py])
+        if isinstance(py, (int, str, bytes, bool)) or py is None: return const(py)
+        if isinstance(py, (frozenset, set, dict)):
+            try: return lib.const_value(py)
+            except (ToolLimit, TypeError): return None
+        return None
+
+    def auto_field(self, base, attr, st):
+        '''an attribute of `self` that no specification declares (a counter, a cache a refactoring added): declared on the fly with the type of the
+        literal(s) assigned to it in the class, value unknown at entry, havocked by every call under contract and at every scheduling point, exempt
+        from the frame check (no contract can mention it).  Nothing is assumed about it, so code that lets it decide anything is explored both ways.'''
+        if self.spec_mode: return False
+        cd = self.source_class(base, st)
+        if cd is None: return False
+        if any(isinstance(n, (ast.FunctionDef, ast.AsyncFunctionDef)) and n.name == attr for n in cd.body): return False
+        tys = set(); found = False
+        for n in ast.walk(cd):
+            tgt = None
+            if isinstance(n, ast.Assign) and len(n.targets) == 1: tgt = n.targets[0]; val = n.value
+            elif isinstance(n, ast.AnnAssign) and n.value is not None: tgt = n.target; val = n.value
+            elif isinstance(n, ast.AugAssign): tgt = n.target; val = None
+            if not (isinstance(tgt, ast.Attribute) and tgt.attr == attr and isinstance(tgt.value, ast.Name) and tgt.value.id == 'self'): continue
+            found = True
+            if val is None: continue
+            if isinstance(val, ast.Constant):
+                tys.add('none' if val.value is None else type(val.value).__name__)
+            elif (isinstance(val, (ast.List, ast.Set, ast.Dict)) and not ast.dump(val).count('Constant') and not getattr(val, 'elts', getattr(val, 'keys', []))) or \
+                    (isinstance(val, ast.Call) and not val.args and not val.keywords and ast.unparse(val.func) in ('list', 'set', 'dict', 'collections.deque', 'collections.OrderedDict', 'collections.Counter')):
+                tys.add('container')
+            else: tys.add('other')
+        if not found: return False
+        opt = 'none' in tys; tys.discard('none')
+        if len(tys) > 1: tys.discard('other')        # the literal initialiser decides (self.n = 0 ... self.n = max(self.n, k))
+        if tys == {'container'}:
+            AUTO_CONTAINERS.add((base.cls, attr))
+        base_ty = {('int',): TInt(), ('bool',): TBool(), ('str',): TStr(), ('bytes',): TBytes()}.get(tuple(sorted(tys)), TAny())
+        ty = TOpt(base_ty) if opt else base_ty
+        CLASSES[base.cls]['fields'][attr] = ty
+        AUTO_FIELDS.add((base.cls, attr))
+        self.ctx.warnings.append('attribute %s.%s is not declared by any specification: taken as an unconstrained %s field' % (base.cls, attr, type(base_ty).__name__))
+        return True
+
+    def havoc_auto_fields(self, st):
+        for key in list(st.heap):
+            if key in AUTO_FIELDS: havoc_heap_key(st, key)
 
     def mro(self, cls):
         out = []; todo = [cls]
@@ -364,7 +473,22 @@ class Exec:
             return self.apply_contract(CONTRACTS[m], [base, idx], {}, st, e)
         return lib.index(self, base, idx, st, e)
 
-    def ev_JoinedStr(self, e, st): raise ToolLimit('f-string')
+    def ev_JoinedStr(self, e, st):
+        '''f'..{x}..{y!r}..' : the equivalent '..{}..{}..'.format(x, repr(y)) -- conversions become calls of str / repr / ascii, a format specification goes into the field'''
+        tpl = ''; args = []
+        for part in e.values:
+            if isinstance(part, ast.Constant): tpl += str(part.value).replace('{', '{{').replace('}', '}}'); continue
+            v = part.value
+            if part.conversion in (114, 97): v = ast.copy_location(ast.Call(func=ast.Name(id='repr', ctx=ast.Load()), args=[v], keywords=[]), part)
+            elif part.conversion == 115: v = ast.copy_location(ast.Call(func=ast.Name(id='str', ctx=ast.Load()), args=[v], keywords=[]), part)
+            spec = ''
+            if part.format_spec is not None:
+                if not all(isinstance(x, ast.Constant) for x in part.format_spec.values): raise ToolLimit('f-string with a computed format specification (line %s)' % e.lineno)
+                spec = ':' + ''.join(str(x.value) for x in part.format_spec.values)
+            tpl += '{' + spec + '}'; args.append(v)
+        call = ast.Call(func=ast.Attribute(value=ast.Constant(value=tpl), attr='format', ctx=ast.Load()), args=args, keywords=[])
+        ast.copy_location(call, e); ast.fix_missing_locations(call)
+        return self.ev(call, st)
 
     def ev_Lambda(self, e, st): return VFunc('lambda', e)
 
@@ -409,6 +533,7 @@ class Exec:
                             props=inv.props, kind='sched-inv')
         # (ii) other coroutines run: shared fields change arbitrarily, subject to the invariant (and the rely)
         for m in me.shared: self.havoc(m, st, st.env)
+        self.havoc_auto_fields(st)
         for inv in me.invariant: st.assume(self.spec_eval(inv.text, st, st.env))
         for r in me.rely: st.assume(self.spec_eval(r, st, st.env))
         st.trace.append('L%s: scheduling point (%s)' % (node.lineno, callee.name))
@@ -474,6 +599,15 @@ class Exec:
         from . import fsmodel
         if isinstance(f, VFunc) and f.kind == 'filemethod': return fsmodel.file_method(self, st, e, f.recv, f.name, args)
         if isinstance(f, VFunc) and f.kind == 'matchmethod': return lib.match_method(self, st, e, f.recv, f.name, args)
+        if isinstance(f, VFunc) and f.kind == 'noop': return VAny(z3.FreshConst(AnySort, 'opaque'))
+        if isinstance(f, VFunc) and f.kind == 'patmethod':
+            # method of a compiled pattern constant: the module-level function with the pattern (and its flags) put in front
+            if kwargs or 're.' + f.name not in lib.MODFUNCS: raise ToolLimit('compiled pattern method %s (line %s)' % (f.name, e.lineno))
+            if f.name == 'sub':
+                if f.recv.flags is not None: raise ToolLimit('compiled pattern with flags in sub (line %s)' % e.lineno)
+                return lib.MODFUNCS['re.sub'](self, st, e, f.recv.pattern, *args)
+            if len(args) != 1: raise ToolLimit('compiled pattern method %s with pos/endpos (line %s)' % (f.name, e.lineno))
+            return lib.MODFUNCS['re.' + f.name](self, st, e, f.recv.pattern, args[0], f.recv.flags)
         if isinstance(f, VRef) and self.find_method(f.cls, '__call__'):
             return self.call(CONTRACTS[self.find_method(f.cls, '__call__')], [f] + args, kwargs, st, e, awaited)
         if isinstance(f, VOpt) and isinstance(f.val, VRef) and self.find_method(f.val.cls, '__call__'):
@@ -587,7 +721,7 @@ class Exec:
     def spec_eval(self, text, st, env_extra=None, result=None):
         ex = Exec(self.ctx); ex.spec_mode = True; ex.result = result
         s = st.fork()
-        if env_extra is not None: s.env = dict(env_extra)
+        if env_extra is not None: s.env = self.outer_names(dict(env_extra), env_extra, st)
         n0 = len(s.pc)
         try:
             tree = ast.parse(text, mode='eval').body
@@ -600,10 +734,17 @@ class Exec:
             st.pc += lib.BRIDGE; del lib.BRIDGE[:]
         return truthy(v)
 
+    def outer_names(self, env, env_extra, st):
+        '''inside a helper executed in place, the clauses of the contract (crash invariant, class invariant, ghost updates) still speak about the names of the
+        function under contract: those are visible again (and take precedence) whenever a clause is evaluated against the running environment'''
+        outer = st.ghost.get('$outer_env')
+        if outer is not None and env_extra is st.env: env.update(outer)
+        return env
+
     def spec_value(self, text, st, env_extra=None, result=None):
         ex = Exec(self.ctx); ex.spec_mode = True; ex.result = result
         s = st.fork()
-        if env_extra is not None: s.env = dict(env_extra)
+        if env_extra is not None: s.env = self.outer_names(dict(env_extra), env_extra, st)
         v = ex.ev(ast.parse(text, mode='eval').body, s)
         self.merge_heap(s, st)
         return v
@@ -689,6 +830,7 @@ class Exec:
         # havoc frame
         for m in c.modifies:
             self.havoc(m, st, env)
+        if not self.spec_mode: self.havoc_auto_fields(st)      # fields no specification declares are outside every frame clause
         if c.pure and c.ret is not None:
             # deterministic observer: an uninterpreted function of its arguments (and of the fields it is declared to read)
             terms = []
@@ -779,12 +921,14 @@ class Exec:
         if m is None: raise ToolLimit('statement %s (line %s)' % (type(s).__name__, s.lineno))
         saved = self.ctx.raises
         self.ctx.raises = []
-        outs = m(s, st)
+        tgt = None if self.spec_mode else self.inline_target(s, st)
+        outs = self.stmt_inlined(s, st, tgt) if tgt else m(s, st)
         outs += self.ctx.raises
         self.ctx.raises = saved
         ga = getattr(self.ctx.c, 'ghost_at', None)
         if ga and not self.spec_mode and ga['after_line_containing'] in src(s, 400) and not isinstance(s, (ast.If, ast.For, ast.While, ast.With, ast.Try)):
             # ghost instrumentation at a program point named by the contract: a ghost field update right after the statement (normal outcomes only)
+            self.ctx.ghost_at_hits = getattr(self.ctx, 'ghost_at_hits', 0) + 1
             for o in outs:
                 if o.kind != 'normal': continue
                 for target, expr in ga['update']:
@@ -796,6 +940,202 @@ class Exec:
             del lib.BRIDGE[:]
         return outs
 
+    # ------------------------------------------------------------------ helpers without a contract: inlined
+    INLINE_DEPTH = 3
+
+    def inline_target(self, s, st):
+        '''the statement's FIRST evaluated expression is a call of a helper (method of the class under contract, or function of its module) that has no
+        contract and is not modelled: -> (call node, node to replace, FunctionDef, kind) ; otherwise None.  Typical origin: an extract-method refactoring.
+        The body of the helper is executed in place (its own arguments bound to fresh names), so it is verified as part of its caller.'''
+        if isinstance(s, (ast.Expr, ast.Return, ast.Assign, ast.AugAssign, ast.AnnAssign)): top = s.value
+        elif isinstance(s, ast.If): top = s.test
+        else: return None
+        if top is None: return None
+        if isinstance(s, ast.AugAssign) and not isinstance(s.target, ast.Name): return None       # the target is read before the value
+        if isinstance(s, ast.Assign) and not all(isinstance(t, (ast.Name, ast.Tuple)) or (isinstance(t, ast.Attribute) and isinstance(t.value, ast.Name)) for t in s.targets): return None
+        repl = self.locate_helper_call(top, st)
+        if repl is None: return None
+        top = repl
+        awaited = False
+        if isinstance(top, (ast.YieldFrom, ast.Await)): top = top.value; awaited = True
+        return self.resolve_helper(s, top, repl, awaited, st)
+
+    def locate_helper_call(self, e, st, depth=0):
+        '''the first call in evaluation order inside expression e, provided everything evaluated before it is a plain name / constant / attribute of a name
+        (so that executing the helper first does not reorder anything observable), and provided it resolves to a helper without a contract'''
+        def pure(x):
+            if isinstance(x, (ast.Name, ast.Constant)): return True
+            if isinstance(x, ast.Attribute): return isinstance(x.value, ast.Name) and x.value.id in st.env and not isinstance(st.env[x.value.id], (VOpt, VNone))
+            if isinstance(x, ast.Tuple): return all(pure(y) for y in x.elts)
+            return False
+        def is_helper(x):
+            c = x.value if isinstance(x, (ast.YieldFrom, ast.Await)) else x
+            if isinstance(c, ast.Attribute) and not isinstance(x, (ast.YieldFrom, ast.Await)): return self.resolve_property(c, st) is not None
+            return isinstance(c, ast.Call) and self.resolve_helper(None, c, x, isinstance(x, (ast.YieldFrom, ast.Await)), st) is not None
+        if is_helper(e): return e
+        if depth >= 2: return None
+        seq = None
+        if isinstance(e, ast.Call):
+            if any(isinstance(a, ast.Starred) for a in e.args) or any(k.arg is None for k in e.keywords): return None
+            f = e.func
+            if isinstance(f, ast.Attribute):
+                if not pure(f): return None
+            elif not isinstance(f, ast.Name): return None
+            seq = list(e.args) + [k.value for k in e.keywords]
+        elif isinstance(e, ast.BinOp): seq = [e.left, e.right]
+        elif isinstance(e, ast.Compare): seq = [e.left] + list(e.comparators)
+        elif isinstance(e, ast.UnaryOp): seq = [e.operand]
+        elif isinstance(e, ast.Subscript): seq = [e.value, e.slice]
+        elif isinstance(e, ast.Attribute): seq = [e.value]
+        if seq is None: return None
+        for x in seq:
+            if isinstance(x, ast.Attribute) and is_helper(x): return x
+            if pure(x): continue
+            return self.locate_helper_call(x, st, depth + 1)
+        return None
+
+    def resolve_property(self, a, st):
+        '''self.<name> where <name> is a read-only @property of the class under contract that no specification declares: its getter is a helper without arguments'''
+        if not (isinstance(a.value, ast.Name) and a.value.id == 'self' and isinstance(st.env.get('self'), VRef) and isinstance(a.ctx, ast.Load)): return None
+        recv = st.env['self']
+        try: field_type(recv.cls, a.attr); return None
+        except ToolLimit: pass
+        if self.find_method(recv.cls, a.attr) or any(b + '.' + a.attr in lib.MODULE_CONSTS for b in self.mro(recv.cls)): return None
+        cd = self.source_class(recv, st)
+        if cd is None: return None
+        for n in cd.body:
+            if isinstance(n, ast.FunctionDef) and n.name == a.attr and [ast.unparse(d) for d in n.decorator_list] == ['property']:
+                if any(isinstance(x, (ast.Yield, ast.YieldFrom, ast.For, ast.While, ast.FunctionDef, ast.ClassDef)) for x in ast.walk(n) if x is not n): return None
+                return ast.copy_location(ast.Call(func=a, args=[], keywords=[]), a), a, n, 'method'
+        return None
+
+    def resolve_helper(self, s, top, repl, awaited, st):
+        if isinstance(top, ast.Attribute) and not awaited: return self.resolve_property(top, st)
+        if not isinstance(top, ast.Call): return None
+        f = top.func
+        fd = None; kind = None; weak = False
+        if isinstance(f, ast.Attribute) and isinstance(f.value, ast.Name) and f.value.id in ('self', 'cls') and f.value.id in st.env:
+            recv = st.env[f.value.id]
+            if f.value.id == 'self':
+                if not isinstance(recv, VRef): return None
+                try: field_type(recv.cls, f.attr); return None
+                except ToolLimit: pass
+                m_ = self.find_method(recv.cls, f.attr)
+                if m_:
+                    # a verified contract that states NOTHING about the result or the final state (exceptions only) tells a new caller nothing: the body, when it is
+                    # a small loop-free method of the same class, is executed in place instead (exact, hence stronger than the contract)
+                    cc = CONTRACTS[m_]
+                    if cc.assumed or cc.ensures or cc.modifies or cc.suspends or cc.is_property or cc.pure or cc.variants or cc.ret is None or cc.file != self.ctx.c.file or cc.name == self.ctx.c.name: return None
+                    weak = True
+                if any(b + '.' + f.attr in lib.MODULE_CONSTS for b in self.mro(recv.cls)): return None
+                cd = self.source_class(recv, st)
+            else:
+                if not (isinstance(recv, VFunc) and recv.kind == 'class'): return None
+                if self.find_method(recv.name, f.attr) or recv.name + '.' + f.attr in CONTRACTS or recv.name + '.' + f.attr in lib.MODULE_CONSTS: return None
+                cd = None
+                if '.' in self.ctx.c.func:
+                    for n in source_tree(self.ctx.c.file)[1].body:
+                        if isinstance(n, ast.ClassDef) and n.name == self.ctx.c.func.split('.')[0]: cd = n
+            if cd is None: return None
+            for n in cd.body:
+                if isinstance(n, ast.FunctionDef) and n.name == f.attr: fd = n
+            if fd is None: return None
+            decos = [ast.unparse(d) for d in fd.decorator_list]
+            if any(d not in ('staticmethod', 'classmethod', 'asyncio.coroutine', 'coroutine') for d in decos): return None
+            kind = 'static' if 'staticmethod' in decos else 'class' if 'classmethod' in decos else 'method'
+            if kind == 'method' and f.value.id != 'self': return None
+        elif isinstance(f, ast.Name):
+            n = f.id
+            if n in st.env or n in ('old', 'forall', 'exists', 'implies', '_'): return None
+            n2 = self.ctx.c.names.get(n, n)
+            if isinstance(n2, V) or n2 in SPECFUNS or n2 in lib.BUILTINS or n2 in CONTRACTS or n2 in lib.MODULE_CONSTS or n2 in CLASSES or n2 in EXC_BASES or n2 in lib.MODULES or n2 in lib.MODFUNCS or n in DROP_CALLS: return None
+            for x in source_tree(self.ctx.c.file)[1].body:
+                if isinstance(x, ast.FunctionDef) and x.name == n: fd = x
+            if fd is None: return None
+            decos = [ast.unparse(d) for d in fd.decorator_list]
+            if any(d not in ('asyncio.coroutine', 'coroutine') for d in decos): return None
+            kind = 'function'
+        else:
+            return None
+        is_gen = any(isinstance(x, (ast.Yield, ast.YieldFrom)) for x in ast.walk(fd)) or any('coroutine' in d for d in decos)
+        if is_gen != awaited: return None
+        if weak and any(isinstance(x, (ast.For, ast.While)) for x in ast.walk(fd)): return None
+        if any(isinstance(x, (ast.AsyncFor, ast.FunctionDef, ast.AsyncFunctionDef, ast.ClassDef, ast.Global, ast.Nonlocal)) for x in ast.walk(fd) if x is not fd): return None
+        if fd.args.vararg or fd.args.kwarg or fd.args.posonlyargs or fd.args.kwonlyargs: return None
+        if any(not isinstance(d, ast.Constant) for d in fd.args.defaults): return None
+        if any(isinstance(a, ast.Starred) for a in top.args) or any(k.arg is None for k in top.keywords): return None
+        return top, repl, fd, kind
+
+    def stmt_inlined(self, s, st, tgt):
+        call, repl, fd, kind = tgt
+        depth = getattr(self, 'inline_depth', 0)
+        if depth >= self.INLINE_DEPTH: raise ToolLimit('helper %s: inlining deeper than %d (line %s)' % (fd.name, self.INLINE_DEPTH, s.lineno))
+        # arguments: evaluated in the caller, left to right
+        params = [a.arg for a in fd.args.args]
+        env = {}
+        if kind == 'method': env[params[0]] = st.env['self']; params = params[1:]
+        elif kind == 'class':
+            env[params[0]] = st.env[call.func.value.id] if call.func.value.id == 'cls' else VFunc('class', self.ctx.c.names.get(self.ctx.c.func.split('.')[0], self.ctx.c.func.split('.')[0]))
+            params = params[1:]
+        nd = len(fd.args.defaults)
+        plan = list(zip(params, call.args)); bound = set(p_ for p_, _ in plan)
+        ok = len(call.args) <= len(params)
+        for k in call.keywords:
+            if k.arg not in params or k.arg in bound: ok = False
+            bound.add(k.arg); plan.append((k.arg, k.value))
+        if not ok or any(p_ not in bound and p_ not in params[len(params) - nd:] for p_ in params): return self.st_dispatch(s, st)
+        for p_, a in plan: env[p_] = self.ev(a, st)
+        for p_, d in zip(params[len(params) - nd:], fd.args.defaults):
+            if p_ not in env: env[p_] = const(d.value)
+        byref = {n_: v for n_, v in env.items() if isinstance(v, (VList, VDict, VSet))}     # value-modelled containers: the helper must not mutate them
+        caller_env = st.env
+        st.env = env
+        set_outer = '$outer_env' not in st.ghost
+        if set_outer: st.ghost['$outer_env'] = caller_env
+        st.trace.append('L%s: helper %s (no contract) executed in place' % (s.lineno, fd.name))
+        self.ctx.warnings.append('helper %s has no contract: its body is executed in place at line %s' % (fd.name, s.lineno))
+        self.inline_depth = depth + 1
+        # a loop inside the helper has no invariant in any contract: it is abstracted with the invariant `True` (sound; what is refuted after it is re-examined
+        # by exact execution like every refutation that depends on a loop invariant); a loop over a constant tuple is unrolled as everywhere else
+        for x in ast.walk(fd):
+            if isinstance(x, (ast.For, ast.While)) and id(x) not in self.ctx.loop_ids: self.ctx.loop_ids[id(x)] = 1000 + len(self.ctx.loop_ids)
+        try:
+            inner = self.block(fd.body, st)
+        finally:
+            self.inline_depth = depth
+        k = next(core_fresh)
+        tmp = '$inl%d' % k
+        new = ast.copy_location(ast.Name(id=tmp, ctx=ast.Load()), repl)
+        def rebuild(x):
+            # a copy of the expression with the helper call replaced by the temporary; only the nodes on the way to it are copied
+            if x is repl: return new
+            if not isinstance(x, ast.AST) or not any(y is repl for y in ast.walk(x)): return x
+            x2 = copy.copy(x)
+            for fld, val in ast.iter_fields(x):
+                if isinstance(val, list): setattr(x2, fld, [rebuild(v) for v in val])
+                elif isinstance(val, ast.AST): setattr(x2, fld, rebuild(val))
+            return x2
+        if isinstance(s, ast.If):
+            s2 = ast.copy_location(ast.If(test=rebuild(s.test), body=s.body, orelse=s.orelse), s)
+        else:
+            s2 = copy.copy(s); s2.value = rebuild(s.value)
+        outs = []
+        for o in inner:
+            for n_, v in byref.items():
+                if o.state.env.get(n_) is not v: raise ToolLimit('helper %s changes (or rebinds) the list/dict/set argument %s (line %s)' % (fd.name, n_, s.lineno))
+            o.state.env = dict(caller_env)
+            if set_outer: o.state.ghost.pop('$outer_env', None)
+            if o.kind in ('normal', 'return'):
+                o.state.env[tmp] = o.value if o.kind == 'return' and o.value is not None else VNone()
+                outs += self.stmt(s2, o.state)
+            elif o.kind == 'raise':
+                outs.append(o)
+            else:
+                raise ToolLimit('stray %s in helper %s' % (o.kind, fd.name))
+        return outs
+
+    def st_dispatch(self, s, st): return getattr(self, 'st_' + type(s).__name__)(s, st)
+
     def st_Pass(self, s, st): return [Outcome('normal', st)]
 
     def st_Expr(self, s, st):
@@ -806,6 +1146,16 @@ class Exec:
         return [Outcome('return', st, v)]
 
     def st_Assign(self, s, st):
+        if isinstance(s.value, ast.IfExp) and any(isinstance(b, ast.Name) or (isinstance(b, ast.Attribute) and isinstance(b.value, ast.Name) and b.value.id in lib.MODULES)
+                                                  for b in (s.value.body, s.value.orelse)):
+            # x = f if c else g  with function-valued branches (which have no common symbolic value): executed as the equivalent if statement
+            def is_func(b):
+                if not (isinstance(b, ast.Name) or (isinstance(b, ast.Attribute) and isinstance(b.value, ast.Name))): return False
+                try: return isinstance(self.ev(b, st.fork()), (VFunc, VMod))
+                except ToolLimit: return False
+            if is_func(s.value.body) or is_func(s.value.orelse):
+                mk = lambda val: ast.copy_location(ast.Assign(targets=s.targets, value=val), s)
+                return self.st_If(ast.copy_location(ast.If(test=s.value.test, body=[mk(s.value.body)], orelse=[mk(s.value.orelse)]), s), st)
         v = self.ev(s.value, st)
         for t in s.targets: self.assign(t, v, st)
         return [Outcome('normal', st)]
@@ -865,7 +1215,10 @@ class Exec:
             setter = self.find_method(base.cls, t.attr + '=')
             if setter: self.apply_contract(CONTRACTS[setter], [base, v], {}, st, t)
             else:
-                ty, _ = field_type(base.cls, t.attr)
+                try: ty, _ = field_type(base.cls, t.attr)
+                except ToolLimit:
+                    if not self.auto_field(base, t.attr, st): raise
+                    ty, _ = field_type(base.cls, t.attr)
                 if isinstance(v, VOpt) and not isinstance(ty, (TOpt, TAny)):
                     # the declared field type excludes None: a typing obligation of the contract file (not a property clause)
                     self.ctx.oblige(st, 'type:%s.%s-not-None@L%s' % (base.cls, t.attr, t.lineno), z3.Not(v.isnone), t, kind='type-decl')
@@ -1074,6 +1427,17 @@ class Exec:
         invs = clauses(spec.get('invariant', []))
         idx = 'i%d_' % k
         iter_raises = list(self.ctx.iter_raises); self.ctx.iter_raises = []
+        uses_guard = any('loop_guard_' in inv.text for inv in invs)
+        def genv(state):
+            '''environment for the invariants; `loop_guard_` = the loop condition in that state (True for `while True`), so that an invariant can be stated
+            as "whenever the body is entered ..." and survives a rewrite of  while True: ... if done: break  into  while not done: ...'''
+            if not uses_guard: return state.env
+            e2 = dict(state.env)
+            if setup is not None: e2['loop_guard_'] = VBool(state.env[idx].term < setup.n)
+            else:
+                sx = Exec(self.ctx); sx.spec_mode = True
+                e2['loop_guard_'] = VBool(truthy(sx.ev(cond, state.fork())))
+            return e2
         if setup is not None:
             st.env[idx] = VInt(0); st.env['seq%d_' % k] = setup
         # a local first assigned inside the loop and declared in the contract: an arbitrary value of its type before the first iteration
@@ -1083,13 +1447,13 @@ class Exec:
                 v_ = fresh(n_, self.ctx.c.locals[n_]); st.pc += wf(v_); alloc_bound(st, v_); st.env[n_] = v_
         # 1. invariant holds on entry
         for inv in invs:
-            self.ctx.oblige(st, 'loop%d/inv%s/entry' % (k, inv.label), self.spec_eval(inv.text, st, st.env), s, props=inv.props, kind='loop-inv-entry')
+            self.ctx.oblige(st, 'loop%d/inv%s/entry' % (k, inv.label), self.spec_eval(inv.text, st, genv(st)), s, props=inv.props, kind='loop-inv-entry')
         # 2. havoc modified variables
         mod_names, mod_fields = self.modified(s)
         mut_only = self.mutated_only(s)
         # a name that is only the receiver of a mutator call (x.append / x.write) needs no havoc unless it holds a container VALUE
         mod_names = set(n for n in mod_names if n not in mut_only or isinstance(st.env.get(n), (VList, VSet, VDict)))
-        h = st.fork()
+        h = st.fork(); h.hinted = True
         for n in mod_names:
             if n in h.env and not isinstance(h.env[n], (VFunc, VMod)) and type(h.env[n]).__name__ not in ('VFile', 'VCtx', 'VConst'):
                 v = fresh(n, h.env[n].ty); h.pc += wf(v); alloc_bound(h, v); h.env[n] = v
@@ -1141,7 +1505,7 @@ class Exec:
         if setup is not None:
             i = fresh(idx, TInt()); h.env[idx] = i
             h.assume(z3.And(i.term >= 0, i.term <= setup.n))
-        for inv in invs: h.assume(self.spec_eval(inv.text, h, h.env))
+        for inv in invs: h.assume(self.spec_eval(inv.text, h, genv(h)))
         outs = []
         # 3. exit branch
         ex = h.fork()
@@ -1178,7 +1542,7 @@ class Exec:
             if o.kind in ('normal', 'continue'):
                 if setup is not None: o.state.env[idx] = VInt(o.state.env[idx].term + 1)
                 for inv in invs:
-                    self.ctx.oblige(o.state, 'loop%d/inv%s/preserved' % (k, inv.label), self.spec_eval(inv.text, o.state, o.state.env), s,
+                    self.ctx.oblige(o.state, 'loop%d/inv%s/preserved' % (k, inv.label), self.spec_eval(inv.text, o.state, genv(o.state)), s,
                                     props=inv.props, kind='loop-inv-preserved')
                 if dec0 is not None:
                     d1 = self.as_int(self.spec_value(spec['decreases'], o.state, o.state.env)).term
@@ -1444,6 +1808,7 @@ def frame_check(ctx, ex, c, o, pi, node):
     for key, cur in o.state.heap.items():
         old = entry.heap.get(key)
         if old is None: continue                       # first read after entry created the array: unchanged by construction
+        if key in AUTO_FIELDS: continue                # a field no specification declares: no contract can depend on it
         same = (cur is old) or all(a is b or a.eq(b) for a, b in zip(cur, old))
         if same: continue
         # references whose field may change
@@ -1468,6 +1833,22 @@ def frame_check(ctx, ex, c, o, pi, node):
         ctx.oblige(o.state, 'frame:%s.%s@path%d' % (key[0], key[1], pi), z3.ForAll([r], z3.Implies(guard, body)), node, kind='frame')
 
 
+_repo_attrs = []
+
+
+def repo_attribute_names():
+    '''every name that occurs after a dot or as a class-level / keyword name in wpull/**/*.py of the tree under verification (cached)'''
+    if not _repo_attrs:
+        names = set()
+        for root, dirs, files in os.walk(os.path.join(REPO, 'wpull')):
+            for f in files:
+                if f.endswith('.py'):
+                    try: names.update(re.findall(r'\.\s*([A-Za-z_]\w*)', open(os.path.join(root, f), encoding='utf-8', errors='replace').read()))
+                    except OSError: pass
+        _repo_attrs.append(names)
+    return _repo_attrs[0]
+
+
 # ---------------------------------------------------------------------- top level
 def verify(contract, unroll=0, shard=(0, 1)):
     """generate obligations for one function under contract"""
@@ -1487,6 +1868,24 @@ def verify(contract, unroll=0, shard=(0, 1)):
         argnames += [x.arg for x in (a.vararg, a.kwarg) if x is not None]
     if sorted(argnames) != sorted(c.params) :
         raise ToolLimit('%s: parameters in source %s differ from the contract %s' % (c.name, argnames, list(c.params)))
+    # an attribute of self that the contract speaks about must still exist somewhere in the tree: after a rename the clauses would talk about a field nothing writes
+    # (and the renamed one would be taken for an undeclared attribute), which proves or refutes nothing
+    texts = [r.text for r in c.requires] + [p_.text for p_ in c.ensures] + [i_.text for i_ in c.invariant] + [p_.text for ps in c.raises.values() for p_ in ps] + \
+            [x.text for sp in c.loops.values() for x in clauses(sp.get('invariant', []))]
+    for t_ in texts:
+        try: tree_ = ast.parse(t_, mode='eval')
+        except SyntaxError: continue
+        for n in ast.walk(tree_):
+            if isinstance(n, ast.Attribute) and isinstance(n.value, ast.Name) and n.value.id == 'self' and not n.attr.startswith('g_') and n.attr not in repo_attribute_names():
+                if '.' in c.func and any(n.attr in CLASSES.get(k, {}).get('fields', {}) for k in CLASSES):
+                    raise ToolLimit('%s: the contract speaks about self.%s, an attribute that no longer occurs anywhere in the source tree (renamed?)' % (c.name, n.attr))
+    bound_names = set(argnames) | set(n.id for n in ast.walk(node) if isinstance(n, ast.Name) and isinstance(n.ctx, ast.Store)) | \
+        set(h.name for h in ast.walk(node) if isinstance(h, ast.ExceptHandler) and h.name) | set(a.asname or a.name for im in ast.walk(node) if isinstance(im, (ast.Import, ast.ImportFrom)) for a in im.names)
+    for g, (gty, gexpr) in c.ghost_out.items():
+        for n in ast.walk(ast.parse(gexpr, mode='eval')):
+            if isinstance(n, ast.Name) and n.id not in bound_names and n.id not in ('self', 'cls', 'True', 'False', 'None'):
+                # the local the contract names as witness is bound nowhere in the function (it was renamed or removed): the clauses that mention it cannot be decided
+                raise ToolLimit('%s: the contract reads its ghost result %s from the local %r, which the function no longer binds' % (c.name, g, n.id))
     st.ghost['alloc'] = z3.Int('alloc0')
     exc_params = [n for n in argnames if isinstance(c.params[n], TExc)]
     for n in argnames:
@@ -1522,6 +1921,9 @@ def verify(contract, unroll=0, shard=(0, 1)):
         starts = nxt
     outs = []
     for s0 in starts: outs += ex.block(node.body, s0)
+    if getattr(c, 'ghost_at', None) and not getattr(ctx, 'ghost_at_hits', 0):
+        # the program point the contract attaches its ghost update to was not found (the statement was reworded): nothing can be concluded, least of all a violation
+        raise ToolLimit('%s: no statement contains %r, the point where the contract updates its ghost state' % (c.name, c.ghost_at['after_line_containing']))
     if shard[0] != 0: ctx.obligations = []        # obligations raised along the way belong to shard 0
     # prune exit paths whose quantifier-free path condition is already unsatisfiable (in-process check, 100 ms): no obligation is
     # generated for a dead path.  Sound: dropping hypotheses only makes a path easier to satisfy, so `unsat` here proves it dead.
@@ -1535,6 +1937,7 @@ def verify(contract, unroll=0, shard=(0, 1)):
             for p in o.state.pc:
                 if not has_quantifier(p): sv.add(p)
             if sv.check() == z3.unsat: ctx.pruned += 1; dead.add(pi)
+    ghost_seen = {}
     for pi, o in enumerate(outs):
         if pi % shard[1] != shard[0] or pi in dead: continue
         n_before = len(ctx.obligations)
@@ -1548,8 +1951,10 @@ def verify(contract, unroll=0, shard=(0, 1)):
                 gs = o.state.fork()
                 if any(n.id not in gs.env for n in ast.walk(ast.parse(gexpr, mode='eval')) if isinstance(n, ast.Name)):
                     penv[g] = fresh(g, gty)       # path on which the ghost expression is undefined: unconstrained
+                    ghost_seen.setdefault(g, False)
                 else:
                     penv[g] = Exec(ctx).ev(ast.parse(gexpr, mode='eval').body, gs)
+                    ghost_seen[g] = True
             penv['$final'] = o.state.env
             # ghost instrumentation stated in the contract (DESIGN 2.3): applied on normal exit, before the postconditions are read
             for target, expr in c.ghost_update:
